@@ -165,28 +165,48 @@ func register(st *simTimer, d time.Duration) {
 	st.due = atomic.LoadInt64(&clockNs) + int64(d)
 	atomic.AddUint64(&timersMade, 1)
 	timerMu.Lock()
-	timers = append(timers, st)
-	atomic.StoreInt32(&nTimers, int32(len(timers)))
+	if len(timers) < 1<<20 { // (beyond a million pending timers the real ones are all there is)
+		// min-heap on the simulated deadline
+		timers = append(timers, st)
+		for i := len(timers) - 1; i > 0; {
+			p := (i - 1) / 2
+			if timers[p].due <= timers[i].due {
+				break
+			}
+			timers[p], timers[i] = timers[i], timers[p]
+			i = p
+		}
+		atomic.StoreInt32(&nTimers, int32(len(timers)))
+	}
 	timerMu.Unlock()
 }
 
 // fireDue fires every registered timer that is due at simulated time now and
 // returns how many were still pending.
 func fireDue(now int64) int {
-	timerMu.Lock()
 	var due []*simTimer
-	keep := timers[:0]
-	for _, st := range timers {
-		if st.due <= now {
-			due = append(due, st)
-		} else {
-			keep = append(keep, st)
+	timerMu.Lock()
+	for len(timers) > 0 && timers[0].due <= now {
+		due = append(due, timers[0])
+		n := len(timers) - 1
+		timers[0] = timers[n]
+		timers[n] = nil
+		timers = timers[:n]
+		for i := 0; ; {
+			l, r, m := 2*i+1, 2*i+2, i
+			if l < n && timers[l].due < timers[m].due {
+				m = l
+			}
+			if r < n && timers[r].due < timers[m].due {
+				m = r
+			}
+			if m == i {
+				break
+			}
+			timers[i], timers[m] = timers[m], timers[i]
+			i = m
 		}
 	}
-	for i := len(keep); i < len(timers); i++ {
-		timers[i] = nil
-	}
-	timers = keep
 	atomic.StoreInt32(&nTimers, int32(len(timers)))
 	timerMu.Unlock()
 	n := 0
